@@ -298,3 +298,436 @@ Proof.
   pose proof (lan_tail_refines P e pk p o m mu dscp q st st rec t t Hpr Hk Hl Ha Hi Ha Hi Hr) as H.
   cbv zeta in H. destruct (lan_verdict P e p (mk_dec o m mu) rec); exact H.
 Qed.
+
+(* ---------------------------------------------------------------------------------------------- *)
+(* 4. LAN ingress                                                                                  *)
+(* ---------------------------------------------------------------------------------------------- *)
+Definition tcp_pkt (pk : ppkt) : packet :=
+  mk_packet PTcp (pp_key pk) (pp_dscp pk) (pp_hsource pk) (t_syn (pp_tcp pk)) (t_ack (pp_tcp pk)) (t_fin (pp_tcp pk)) (t_rst (pp_tcp pk)).
+Definition udp_pkt (pk : ppkt) : packet :=
+  mk_packet PUdp (pp_key pk) (pp_dscp pk) (pp_hsource pk) false false false false.
+
+
+Lemma tcp_track_old_args : forall t k p w now d pid,
+  p_new p = false -> tcp_track t k p w now d pid = tcp_track t k p w now 0 0.
+Proof. intros t k p w now d pid H. unfold tcp_track. rewrite H. reflexivity. Qed.
+
+Lemma lan_tcp_old : forall P e st pk,
+  inv_conn (ks_conn st) ->
+  pp_l4 pk = IPPROTO_TCP -> k_proto (pp_key pk) = IPPROTO_TCP ->
+  tcp_flags_new (pp_tcp pk) = false -> pp_listener pk = 0 ->
+  refines (lan_ingress P e st (0%Z, Some pk)) (pp_key pk) (e_now e)
+          (spec_lan_ingress P e (abs_conn (ks_conn st)) (tcp_pkt pk)).
+Proof.
+  intros P e st pk Hi Hl4 Hkp Hnew Hlis.
+  assert (Ht : (pp_l4 pk =? IPPROTO_TCP) = true) by (rewrite Hl4; reflexivity).
+  assert (Hpn : p_new (tcp_pkt pk) = false) by exact Hnew.
+  assert (Hsl : is_short_lived_udp_traffic (pp_key pk) = false) by (unfold is_short_lived_udp_traffic; rewrite Hkp; reflexivity).
+  unfold lan_ingress. cbn [Z.eqb negb]. rewrite Ht, Hnew. cbn [negb andb].
+  unfold spec_lan_ingress. cbn [p_class tcp_pkt].
+  rewrite Hpn, (tcp_track_old_args _ _ _ _ _ _ _ Hpn), (tcp_track_abs _ _ _ _ _ no_args eq_refl), Hpn.
+  change (p_finrst (tcp_pkt pk)) with (tcp_flags_finrst (pp_tcp pk)).
+  change (p_key (tcp_pkt pk)) with (pp_key pk).
+  pose proof (mark_tcp_get (ks_conn st) (pp_key pk) false false (tcp_flags_finrst (pp_tcp pk)) no_args (e_now e)) as Hget.
+  pose proof (mark_tcp_inv (ks_conn st) (pp_key pk) false false (tcp_flags_finrst (pp_tcp pk)) no_args (e_now e) Hi Hsl) as Hinv.
+  destruct (mark_tcp_seen (ks_conn st) (pp_key pk) false false (tcp_flags_finrst (pp_tcp pk)) no_args (e_now e)) as [ts conn1].
+  cbn [fst snd option_map] in *.
+  destruct ts as [s|]; cbn [option_map]; [| apply refines_ok; [reflexivity | exact Hinv]].
+  specialize (Hget s conn1 eq_refl).
+  change (fe_dec (abs_cs s)) with (if cs_has s =? 0 then None else Some (mk_dec (cs_out s) (cs_mark s) (cs_must s))).
+  destruct (cs_has s =? 0) eqn:Hhas; [apply refines_ok; [reflexivity | exact Hinv]|].
+  apply (lan_tail_refines_same P e pk (tcp_pkt pk)); cbn [ks_conn]; try assumption; try reflexivity.
+  - rewrite Hl4; exact Hkp.
+  - unfold p_listener; cbn [p_class tcp_pkt]; rewrite Hpn, Hlis; reflexivity.
+  - rewrite Hget; apply retrieve_conn; exact Hhas.
+Qed.
+
+
+(* the routing step of do_tproxy_lan_ingress (a literal copy of the model text after step1) *)
+Definition lan_local (P : param) (e : env) (pk : ppkt) : bool :=
+  if pp_l4 pk =? IPPROTO_TCP then
+    if negb (t_syn (pp_tcp pk) && negb (t_ack (pp_tcp pk))) then
+      match e_sock e with
+      | Some (smark, sstate) => negb (bpf_sock_is_dae_socket P smark) && (sstate =? 10)
+      | None => false
+      end
+    else false
+  else match e_sock e with
+       | Some (smark, _) => negb (bpf_sock_is_dae_socket P smark)
+       | None => false
+       end.
+Definition lan_conn2 (pk : ppkt) (cur : option cstate) (conn1 : list (fkey * cstate)) (outbound mark must : N) :=
+  if (pp_l4 pk =? IPPROTO_UDP) && is_short_lived_udp_traffic (pp_key pk) then conn1
+  else match cur with
+       | Some s =>
+           tab_set conn1 (pp_key pk) (mk_cs (cs_wan_in s) (cs_state s) (cs_last s) mark outbound must (pp_dscp pk) 1
+                                  (pp_hsource pk) (cs_pname s) (cs_pid s))
+       | None => conn1
+       end.
+Definition lan_route (P : param) (e : env) (st : kstate) (pk : ppkt) (cur : option cstate) (conn1 : list (fkey * cstate)) : hres :=
+  let st1 := mk_ks conn1 (ks_hand st) in
+  if lan_local P e pk then ret_act TC_ACT_OK None None st1
+  else
+    let q := rquery_of e pk false 0 in
+    let w := e_route e q in
+    if (w <? 0)%Z then ret_act TC_ACT_SHOT None (Some q) st1
+    else
+      let '(outbound, mark, must) := unpack w in
+      let st2 := mk_ks (lan_conn2 pk cur conn1 outbound mark must) (ks_hand st) in
+      if (pp_l4 pk =? IPPROTO_TCP) && (match cur with None => true | Some _ => false end) then
+        if (outbound =? OUTBOUND_DIRECT) && (mark =? 0) then ret_act TC_ACT_OK (Some mark) (Some q) st2
+        else ret_act TC_ACT_SHOT None (Some q) st2
+      else lan_tail P e pk outbound mark must (pp_dscp pk) (Some q) st2 st2.
+
+Lemma decide_unpack : forall w o m mu, (w <? 0)%Z = false -> unpack w = (o, m, mu) -> decide w = Some (mk_dec o m mu).
+Proof.
+  intros w o m mu Hw Hu.
+  assert (H : decide w = Some (mk_dec (fst (fst (unpack w))) (snd (fst (unpack w))) (snd (unpack w))))
+    by (unfold decide; rewrite Hw; reflexivity).
+  rewrite H, Hu. reflexivity.
+Qed.
+Lemma decide_neg : forall w, (w <? 0)%Z = true -> decide w = None.
+Proof. intros w Hw. unfold decide. rewrite Hw. reflexivity. Qed.
+
+Lemma query_eq : forall e pk p wan,
+  p_key p = pp_key pk -> p_dscp p = pp_dscp pk -> p_mac p = pp_hsource pk -> k_proto (pp_key pk) = pp_l4 pk ->
+  query e p wan = rquery_of e pk wan (if wan then match e_proc e with Some (_, nm) => nm | None => 0 end else 0).
+Proof. intros e pk p wan Hk Hd Hm Hp. unfold query, rquery_of. rewrite Hk, Hd, Hm, Hp. reflexivity. Qed.
+
+Lemma lan_route_refines : forall P e st pk p cur conn1 (recf : decision -> frec) (t2f : decision -> ftab),
+  p_key p = pp_key pk -> p_dscp p = pp_dscp pk -> p_mac p = pp_hsource pk -> k_proto (pp_key pk) = pp_l4 pk ->
+  p_listener p = pp_listener pk ->
+  (pp_l4 pk =? IPPROTO_TCP) && (match cur with None => true | Some _ => false end) = false ->
+  inv_conn conn1 ->
+  (forall o m mu,
+     abs_conn (lan_conn2 pk cur conn1 o m mu) = t2f (mk_dec o m mu) /\ inv_conn (lan_conn2 pk cur conn1 o m mu) /\
+     go_retrieve_rec (tab_get (lan_conn2 pk cur conn1 o m mu) (pp_key pk))
+                     (Some (mk_he (e_now e) (mk_rr m mu (pp_hsource pk) o 0 0 (pp_dscp pk)))) (e_now e)
+     = Some (recf (mk_dec o m mu))) ->
+  refines (lan_route P e st pk cur conn1) (pp_key pk) (e_now e)
+    (if lan_local P e pk then (Pass None, abs_conn conn1)
+     else match decide (e_route e (query e p false)) with
+          | None => (Drop, abs_conn conn1)
+          | Some d => (lan_verdict P e p d (recf d), t2f d)
+          end).
+Proof.
+  intros P e st pk p cur conn1 recf t2f Hk Hd Hm Hp Hl Hcur Hi H.
+  unfold lan_route. cbv zeta.
+  destruct (lan_local P e pk); [apply refines_ok; [reflexivity | exact Hi]|].
+  rewrite (query_eq e pk p false Hk Hd Hm Hp).
+  destruct (e_route e (rquery_of e pk false 0) <? 0)%Z eqn:Hw.
+  - rewrite (decide_neg _ Hw). apply refines_shot; [reflexivity | exact Hi].
+  - destruct (unpack (e_route e (rquery_of e pk false 0))) as [[o m] mu] eqn:Hu.
+    rewrite (decide_unpack _ _ _ _ Hw Hu), Hcur.
+    destruct (H o m mu) as (Ha & Hi2 & Hr).
+    apply (lan_tail_refines_same P e pk p); cbn [ks_conn]; try assumption.
+    rewrite Hk. exact Hp.
+Qed.
+
+Lemma lan_tcp_new : forall P e st pk,
+  inv_conn (ks_conn st) ->
+  pp_l4 pk = IPPROTO_TCP -> k_proto (pp_key pk) = IPPROTO_TCP ->
+  tcp_flags_new (pp_tcp pk) = true -> pp_listener pk = IPPROTO_TCP ->
+  refines (lan_ingress P e st (0%Z, Some pk)) (pp_key pk) (e_now e)
+          (spec_lan_ingress P e (abs_conn (ks_conn st)) (tcp_pkt pk)).
+Proof.
+  intros P e st pk Hi Hl4 Hkp Hnew Hlis.
+  assert (Ht : (pp_l4 pk =? IPPROTO_TCP) = true) by (rewrite Hl4; reflexivity).
+  assert (Hpn : p_new (tcp_pkt pk) = true) by exact Hnew.
+  assert (Hsl : is_short_lived_udp_traffic (pp_key pk) = false) by (unfold is_short_lived_udp_traffic; rewrite Hkp; reflexivity).
+  assert (Heq : lan_ingress P e st (0%Z, Some pk) =
+                lan_route P e st pk (fst (mark_tcp_seen (ks_conn st) (pp_key pk) false true (tcp_flags_finrst (pp_tcp pk)) (mk_args None None None (pp_dscp pk) 0) (e_now e)))
+                                    (snd (mark_tcp_seen (ks_conn st) (pp_key pk) false true (tcp_flags_finrst (pp_tcp pk)) (mk_args None None None (pp_dscp pk) 0) (e_now e)))).
+  { unfold lan_ingress. cbn [Z.eqb negb]. rewrite Ht, Hnew. cbn [negb andb].
+    destruct (mark_tcp_seen (ks_conn st) (pp_key pk) false true (tcp_flags_finrst (pp_tcp pk)) (mk_args None None None (pp_dscp pk) 0) (e_now e)) as [ts conn1].
+    unfold lan_route, lan_local, lan_conn2. rewrite Ht. reflexivity. }
+  rewrite Heq. clear Heq.
+  unfold spec_lan_ingress. cbn [p_class tcp_pkt].
+  rewrite Hpn.
+  rewrite (tcp_track_abs _ _ _ _ _ (mk_args None None None (pp_dscp pk) 0) eq_refl), Hpn.
+  change (p_finrst (tcp_pkt pk)) with (tcp_flags_finrst (pp_tcp pk)).
+  change (p_key (tcp_pkt pk)) with (pp_key pk). change (p_dscp (tcp_pkt pk)) with (pp_dscp pk).
+  change (p_mac (tcp_pkt pk)) with (pp_hsource pk).
+  rewrite mark_tcp_new. cbn [fst snd option_map].
+  set (ns := new_state false (e_now e) (mk_args None None None (pp_dscp pk) 0)).
+  set (conn1 := tab_set (tab_del (ks_conn st) (pp_key pk)) (pp_key pk) ns).
+  assert (Hi1 : inv_conn conn1) by (apply inv_conn_set; [apply inv_conn_del; exact Hi | exact Hsl]).
+  assert (Hloc : lan_local P e pk = false).
+  { unfold lan_local. rewrite Ht. unfold tcp_flags_new in Hnew. rewrite Hnew. reflexivity. }
+  pose proof (lan_route_refines P e st pk (tcp_pkt pk) (Some ns) conn1
+                (fun d => rec_of (with_decision (abs_cs ns) d (pp_dscp pk) (pp_hsource pk) None) d)
+                (fun d => tab_set (abs_conn conn1) (pp_key pk) (with_decision (abs_cs ns) d (pp_dscp pk) (pp_hsource pk) None))
+                eq_refl eq_refl eq_refl) as H.
+  rewrite Hloc in H. apply H; clear H.
+  - rewrite Hl4; exact Hkp.
+  - unfold p_listener; cbn [p_class tcp_pkt]; rewrite Hpn, Hlis; reflexivity.
+  - rewrite Ht. reflexivity.
+  - exact Hi1.
+  - intros o m mu. unfold lan_conn2. rewrite Hl4. cbn [N.eqb IPPROTO_TCP IPPROTO_UDP Pos.eqb andb].
+    split; [apply set_abs|]. split; [apply inv_conn_set; assumption|].
+    rewrite tab_get_set_eq. apply retrieve_conn. reflexivity.
+Qed.
+
+Lemma lan_local_udp : forall P e pk, (pp_l4 pk =? IPPROTO_TCP) = false -> lan_local P e pk = local_service P e.
+Proof.
+  intros P e pk H. unfold lan_local, local_service. rewrite H.
+  destruct (e_sock e) as [[a b]|]; [|reflexivity].
+  unfold bpf_sock_is_dae_socket. destruct (P_sock_mark P =? 0); reflexivity.
+Qed.
+
+Lemma lan_udp_stateless : forall P e st pk,
+  inv_conn (ks_conn st) -> 0 < e_now e ->
+  pp_l4 pk = IPPROTO_UDP -> k_proto (pp_key pk) = IPPROTO_UDP ->
+  is_short_lived_udp_traffic (pp_key pk) = true -> pp_listener pk = IPPROTO_UDP ->
+  refines (lan_ingress P e st (0%Z, Some pk)) (pp_key pk) (e_now e)
+          (spec_lan_ingress P e (abs_conn (ks_conn st)) (udp_pkt pk)).
+Proof.
+  intros P e st pk Hi Hnow Hl4 Hkp Hsl Hlis.
+  assert (Ht : (pp_l4 pk =? IPPROTO_TCP) = false) by (rewrite Hl4; reflexivity).
+  assert (Heq : lan_ingress P e st (0%Z, Some pk) = lan_route P e st pk None (ks_conn st)).
+  { unfold lan_ingress, lan_route, lan_local, lan_conn2. cbn [Z.eqb negb]. rewrite Ht, Hsl. reflexivity. }
+  rewrite Heq. clear Heq.
+  unfold spec_lan_ingress. cbn [p_class udp_pkt].
+  change (p_stateless (udp_pkt pk)) with (is_short_lived_udp_traffic (pp_key pk)). rewrite Hsl.
+  rewrite <- (lan_local_udp P e pk Ht).
+  change (p_dscp (udp_pkt pk)) with (pp_dscp pk). change (p_mac (udp_pkt pk)) with (pp_hsource pk).
+  apply (lan_route_refines P e st pk (udp_pkt pk) None (ks_conn st)
+                (fun d => mk_frec d (pp_dscp pk) (pp_hsource pk) 0 0) (fun _ => abs_conn (ks_conn st))); try reflexivity.
+  - rewrite Hl4; exact Hkp.
+  - rewrite Hlis; reflexivity.
+  - rewrite Ht; reflexivity.
+  - exact Hi.
+  - intros o m mu. unfold lan_conn2. rewrite Hl4, Hsl. cbn [N.eqb IPPROTO_UDP Pos.eqb andb].
+    split; [reflexivity|]. split; [exact Hi|].
+    rewrite (Hi _ Hsl). apply retrieve_hand. exact Hnow.
+Qed.
+
+Lemma lan_udp_tracked : forall P e st pk,
+  inv_conn (ks_conn st) ->
+  pp_l4 pk = IPPROTO_UDP -> k_proto (pp_key pk) = IPPROTO_UDP ->
+  is_short_lived_udp_traffic (pp_key pk) = false -> pp_listener pk = IPPROTO_UDP ->
+  refines (lan_ingress P e st (0%Z, Some pk)) (pp_key pk) (e_now e)
+          (spec_lan_ingress P e (abs_conn (ks_conn st)) (udp_pkt pk)).
+Proof.
+  intros P e st pk Hi Hl4 Hkp Hsl Hlis.
+  assert (Ht : (pp_l4 pk =? IPPROTO_TCP) = false) by (rewrite Hl4; reflexivity).
+  unfold spec_lan_ingress. cbn [p_class udp_pkt].
+  change (p_stateless (udp_pkt pk)) with (is_short_lived_udp_traffic (pp_key pk)). rewrite Hsl.
+  change (p_key (udp_pkt pk)) with (pp_key pk).
+  change (p_dscp (udp_pkt pk)) with (pp_dscp pk). change (p_mac (udp_pkt pk)) with (pp_hsource pk).
+  rewrite (udp_track_abs _ _ _ _ (mk_args None None None (pp_dscp pk) 0) eq_refl eq_refl).
+  pose proof (mark_udp_get (ks_conn st) (pp_key pk) false (mk_args None None None (pp_dscp pk) 0) (e_now e)) as Hget.
+  pose proof (mark_udp_inv (ks_conn st) (pp_key pk) false (mk_args None None None (pp_dscp pk) 0) (e_now e) Hi Hsl) as Hinv.
+  assert (Heq : lan_ingress P e st (0%Z, Some pk) =
+    let us := fst (mark_udp_seen (ks_conn st) (pp_key pk) false (mk_args None None None (pp_dscp pk) 0) (e_now e)) in
+    let conn1 := snd (mark_udp_seen (ks_conn st) (pp_key pk) false (mk_args None None None (pp_dscp pk) 0) (e_now e)) in
+    let st1 := mk_ks conn1 (ks_hand st) in
+    if cs_wan_in us then ret_act TC_ACT_OK None None st1
+    else if negb (cs_has us =? 0)
+         then lan_tail P e pk (cs_out us) (cs_mark us) (cs_must us) (cs_dscp us) None st1
+                       (mk_ks (tab_set conn1 (pp_key pk) (set_last us (e_now e))) (ks_hand st))
+         else lan_route P e st pk (Some us) conn1).
+  { unfold lan_ingress. cbn [Z.eqb negb]. rewrite Ht, Hsl. cbn [negb andb].
+    destruct (mark_udp_seen (ks_conn st) (pp_key pk) false (mk_args None None None (pp_dscp pk) 0) (e_now e)) as [us conn1].
+    cbn [fst snd]. unfold lan_tail.
+    destruct (cs_wan_in us); [reflexivity|].
+    destruct (cs_has us =? 0); cbn [negb].
+    - unfold lan_route, lan_local, lan_conn2. rewrite Ht, ?Hsl. reflexivity.
+    - destruct (cs_out us =? OUTBOUND_DIRECT); [reflexivity|].
+      destruct (cs_out us =? OUTBOUND_BLOCK); [reflexivity|].
+      destruct (negb (wan_outbound_is_alive e (cs_out us) (pp_l4 pk) (k_dport (pp_key pk)))); reflexivity. }
+  rewrite Heq. clear Heq.
+  destruct (mark_udp_seen (ks_conn st) (pp_key pk) false (mk_args None None None (pp_dscp pk) 0) (e_now e)) as [us conn1].
+  cbn [fst snd] in *. specialize (Hget us conn1 eq_refl).
+  change (fe_wan_in (abs_cs us)) with (cs_wan_in us).
+  destruct (cs_wan_in us); [apply refines_ok; [reflexivity | exact Hinv]|].
+  change (fe_dec (abs_cs us)) with (if cs_has us =? 0 then None else Some (mk_dec (cs_out us) (cs_mark us) (cs_must us))).
+  destruct (cs_has us =? 0) eqn:Hhas; cbn [negb].
+  - rewrite <- (lan_local_udp P e pk Ht).
+    apply (lan_route_refines P e st pk (udp_pkt pk) (Some us) conn1
+             (fun d => rec_of (with_decision (abs_cs us) d (pp_dscp pk) (pp_hsource pk) None) d)
+             (fun d => tab_set (abs_conn conn1) (pp_key pk) (with_decision (abs_cs us) d (pp_dscp pk) (pp_hsource pk) None)));
+      try reflexivity.
+    + rewrite Hl4; exact Hkp.
+    + rewrite Hlis; reflexivity.
+    + rewrite Ht; reflexivity.
+    + exact Hinv.
+    + intros o m mu. unfold lan_conn2. rewrite Hsl, andb_false_r.
+      split; [apply set_abs|]. split; [apply inv_conn_set; assumption|].
+      rewrite tab_get_set_eq. apply retrieve_conn. reflexivity.
+  - rewrite touched_abs, <- set_abs.
+    apply (lan_tail_refines P e pk (udp_pkt pk)); cbn [ks_conn]; try reflexivity; try assumption.
+    + rewrite Hl4; exact Hkp.
+    + rewrite Hlis; reflexivity.
+    + apply inv_conn_set; assumption.
+    + rewrite tab_get_set_eq. apply retrieve_conn. exact Hhas.
+Qed.
+
+(* ----- from parse results to the packets of the two sides ----- *)
+Definition pk_of (c : pctx) : ppkt :=
+  mk_ppkt (eh_proto (c_eth c)) (eh_source (c_eth c)) (fst (get_tuples c)) (snd (get_tuples c)) (c_tcp c)
+          (c_l4proto c) (c_listener c).
+
+Lemma parse_packet_some : forall ret c,
+  (ret <? 0)%Z = false -> (c_l4proto c =? IPPROTO_ICMPV6) = false -> parse_packet (ret, c) = (ret, Some (pk_of c)).
+Proof. intros ret c H H0. unfold parse_packet. rewrite H, H0. reflexivity. Qed.
+Lemma classify_tcp : forall c, c_l4proto c = IPPROTO_TCP -> classify (0%Z, c) = tcp_pkt (pk_of c).
+Proof. intros c H. unfold classify. rewrite H. reflexivity. Qed.
+Lemma classify_udp : forall c, c_l4proto c = IPPROTO_UDP -> classify (0%Z, c) = udp_pkt (pk_of c).
+Proof. intros c H. unfold classify. rewrite H. reflexivity. Qed.
+Lemma pk_of_proto : forall c, k_proto (pp_key (pk_of c)) = c_l4proto c.
+Proof. reflexivity. Qed.
+
+Lemma lan_ingress_refines_proof : forall P e st r,
+  wf_parse r -> inv st -> 0 < e_now e ->
+  let h := lan_ingress P e st (parse_packet r) in
+  let s := spec_lan_ingress P e (abs_conn (ks_conn st)) (classify r) in
+  observe h (p_key (classify r)) (e_now e) = fst s /\ abs_conn (ks_conn (h_st h)) = snd s /\ inv (h_st h).
+Proof.
+  intros P e st [ret c] Hwf Hinv Hnow. cbv zeta.
+  change (refines (lan_ingress P e st (parse_packet (ret, c))) (p_key (classify (ret, c))) (e_now e)
+                  (spec_lan_ingress P e (abs_conn (ks_conn st)) (classify (ret, c)))).
+  apply inv_is_inv_conn in Hinv.
+  destruct (ret <? 0)%Z eqn:Hneg.
+  { unfold parse_packet, classify. rewrite Hneg. unfold lan_ingress. rewrite Hneg.
+    apply refines_shot; [reflexivity | exact Hinv]. }
+  destruct (c_l4proto c =? IPPROTO_ICMPV6) eqn:H58.
+  { unfold parse_packet, classify. rewrite Hneg, H58, orb_true_r.
+    apply refines_ok; [reflexivity | exact Hinv]. }
+  rewrite (parse_packet_some _ _ Hneg H58).
+  destruct (ret =? 0)%Z eqn:H0.
+  2:{ unfold classify. rewrite Hneg. assert (0 <? ret = true)%Z as -> by lia. cbn [orb].
+      unfold lan_ingress. rewrite H0, Hneg. apply refines_ok; [reflexivity | exact Hinv]. }
+  apply Z.eqb_eq in H0. subst ret.
+  destruct (Hwf eq_refl) as (Hp & Ht & Hu). cbn [snd] in Hp, Ht, Hu.
+  destruct Hp as [Hp | [Hp | Hp]].
+  - rewrite (classify_tcp _ Hp). specialize (Ht Hp).
+    destruct (tcp_flags_new (c_tcp c)) eqn:Hnew.
+    + apply lan_tcp_new; try assumption.
+    + apply lan_tcp_old; try assumption.
+  - rewrite (classify_udp _ Hp). specialize (Hu Hp).
+    destruct (is_short_lived_udp_traffic (pp_key (pk_of c))) eqn:Hsl.
+    + apply lan_udp_stateless; try assumption.
+    + apply lan_udp_tracked; try assumption.
+  - rewrite Hp in H58. discriminate H58.
+Qed.
+
+(* ---------------------------------------------------------------------------------------------- *)
+(* 5. WAN egress                                                                                   *)
+(* ---------------------------------------------------------------------------------------------- *)
+Lemma from_dae_eq : forall P e, from_dae P e = pid_is_control_plane P e.
+Proof.
+  intros P e. unfold from_dae, pid_is_control_plane. destruct (e_proc e) as [[a b]|]; [reflexivity|].
+  destruct (negb (P_sock_mark P =? 0) && (e_skb_mark e =? P_sock_mark P)); reflexivity.
+Qed.
+
+Lemma wan_verdict_eq : forall e p o m mu r,
+  wan_verdict e p (mk_dec o m mu) r =
+  if negb (needs_control_plane o m) then Pass (if k_proto (p_key p) =? IPPROTO_TCP then Some 0 else None)
+  else if o =? OUTBOUND_BLOCK then Drop
+  else if negb (wan_outbound_is_alive e o (k_proto (p_key p)) (k_dport (p_key p))) then Drop
+  else ToDae false (p_listener p) r.
+Proof.
+  intros. unfold wan_verdict, needs_control_plane. cbn [d_out d_mark]. rewrite alive_eq, negb_involutive. reflexivity.
+Qed.
+
+Lemma wan_tail_refines : forall e pk p listener o m mu hmac hpname hpid set_mark q st rec t,
+  p_key p = pp_key pk -> k_proto (pp_key pk) = pp_l4 pk -> p_listener p = listener ->
+  set_mark = (pp_l4 pk =? IPPROTO_TCP) ->
+  abs_conn (ks_conn st) = t -> inv_conn (ks_conn st) ->
+  (needs_control_plane o m = true ->
+   go_retrieve_rec (tab_get (ks_conn st) (pp_key pk))
+                   (Some (mk_he (e_now e) (mk_rr m mu hmac o hpname hpid (pp_dscp pk)))) (e_now e) = Some rec) ->
+  refines (wan_tail e pk listener o m mu hmac hpname hpid set_mark q st) (pp_key pk) (e_now e)
+          (wan_verdict e p (mk_dec o m mu) rec, t).
+Proof.
+  intros e pk p listener o m mu hmac hpname hpid set_mark q st rec t Hk Hp Hl Hs Ha Hi Hr.
+  rewrite wan_verdict_eq, Hk, Hp, Hl. unfold wan_tail.
+  destruct (needs_control_plane o m) eqn:Hn; cbn [negb].
+  2:{ unfold needs_control_plane in Hn. apply negb_false_iff, andb_true_iff in Hn. destruct Hn as [_ Hm].
+      apply N.eqb_eq in Hm. subst m set_mark.
+      destruct (pp_l4 pk =? IPPROTO_TCP); apply refines_ok; assumption. }
+  destruct (o =? OUTBOUND_BLOCK); [apply refines_shot; assumption|].
+  destruct (negb (wan_outbound_is_alive e o (pp_l4 pk) (k_dport (pp_key pk)))); [apply refines_shot; assumption|].
+  apply refines_redirect; auto.
+Qed.
+
+Lemma wan_tcp_old : forall P e st pk,
+  inv_conn (ks_conn st) -> e_ingress_if e = 0 ->
+  pp_l4 pk = IPPROTO_TCP -> k_proto (pp_key pk) = IPPROTO_TCP -> tcp_flags_new (pp_tcp pk) = false ->
+  refines (wan_egress_tcp P e st pk) (pp_key pk) (e_now e)
+          (spec_wan_egress false P e (abs_conn (ks_conn st)) (tcp_pkt pk)).
+Proof.
+  intros P e st pk Hi Hif Hl4 Hkp Hnew.
+  assert (Ht : (pp_l4 pk =? IPPROTO_TCP) = true) by (rewrite Hl4; reflexivity).
+  assert (Hpn : p_new (tcp_pkt pk) = false) by exact Hnew.
+  assert (Hsl : is_short_lived_udp_traffic (pp_key pk) = false) by (unfold is_short_lived_udp_traffic; rewrite Hkp; reflexivity).
+  unfold wan_egress_tcp. rewrite Hnew.
+  unfold spec_wan_egress. rewrite Hif. cbn [N.eqb negb p_class tcp_pkt].
+  rewrite Hpn, (tcp_track_abs _ _ _ _ _ no_args eq_refl), Hpn.
+  change (p_finrst (tcp_pkt pk)) with (tcp_flags_finrst (pp_tcp pk)).
+  change (p_key (tcp_pkt pk)) with (pp_key pk).
+  pose proof (mark_tcp_get (ks_conn st) (pp_key pk) false false (tcp_flags_finrst (pp_tcp pk)) no_args (e_now e)) as Hget.
+  pose proof (mark_tcp_inv (ks_conn st) (pp_key pk) false false (tcp_flags_finrst (pp_tcp pk)) no_args (e_now e) Hi Hsl) as Hinv.
+  destruct (mark_tcp_seen (ks_conn st) (pp_key pk) false false (tcp_flags_finrst (pp_tcp pk)) no_args (e_now e)) as [ts conn1].
+  cbn [fst snd option_map] in *.
+  destruct ts as [s|]; cbn [option_map]; [| apply refines_ok; [reflexivity | exact Hinv]].
+  specialize (Hget s conn1 eq_refl).
+  change (fe_dec (abs_cs s)) with (if cs_has s =? 0 then None else Some (mk_dec (cs_out s) (cs_mark s) (cs_must s))).
+  destruct (cs_has s =? 0) eqn:Hhas; [apply refines_ok; [reflexivity | exact Hinv]|].
+  apply (wan_tail_refines e pk (tcp_pkt pk)); cbn [ks_conn]; try reflexivity; try assumption.
+  - rewrite Hl4; exact Hkp.
+  - unfold p_listener; cbn [p_class tcp_pkt]; rewrite Hpn; reflexivity.
+  - rewrite Ht; reflexivity.
+  - intros _. rewrite Hget. apply retrieve_conn. exact Hhas.
+Qed.
+
+Lemma wan_tcp_new : forall P e st pk,
+  inv_conn (ks_conn st) -> e_ingress_if e = 0 ->
+  pp_l4 pk = IPPROTO_TCP -> k_proto (pp_key pk) = IPPROTO_TCP -> tcp_flags_new (pp_tcp pk) = true ->
+  refines (wan_egress_tcp P e st pk) (pp_key pk) (e_now e)
+          (spec_wan_egress false P e (abs_conn (ks_conn st)) (tcp_pkt pk)).
+Proof.
+  intros P e st pk Hi Hif Hl4 Hkp Hnew.
+  assert (Ht : (pp_l4 pk =? IPPROTO_TCP) = true) by (rewrite Hl4; reflexivity).
+  assert (Hpn : p_new (tcp_pkt pk) = true) by exact Hnew.
+  assert (Hsl : is_short_lived_udp_traffic (pp_key pk) = false) by (unfold is_short_lived_udp_traffic; rewrite Hkp; reflexivity).
+  unfold wan_egress_tcp. rewrite Hnew.
+  unfold spec_wan_egress. rewrite Hif. cbn [N.eqb negb p_class tcp_pkt].
+  rewrite Hpn. change (from_dae P e) with (pid_is_control_plane P e).
+  destruct (pid_is_control_plane P e); [apply refines_ok; [reflexivity | exact Hi]|].
+  rewrite (query_eq e pk (tcp_pkt pk) true eq_refl eq_refl eq_refl) by (rewrite Hl4; exact Hkp).
+  cbv zeta.
+  set (pname := match e_proc e with Some (_, nm) => nm | None => 0 end).
+  set (q := rquery_of e pk true pname).
+  destruct (e_route e q <? 0)%Z eqn:Hw.
+  { rewrite (decide_neg _ Hw). apply refines_shot; [reflexivity | exact Hi]. }
+  destruct (unpack (e_route e q)) as [[o m] mu] eqn:Hu.
+  rewrite (decide_unpack _ _ _ _ Hw Hu), mark_tcp_new.
+  change (p_key (tcp_pkt pk)) with (pp_key pk). change (p_dscp (tcp_pkt pk)) with (pp_dscp pk).
+  change (p_mac (tcp_pkt pk)) with (pp_hsource pk).
+  set (pid := match e_proc e with Some (pid, _) => pid | None => 0 end).
+  set (a := mk_args (if (o =? OUTBOUND_DIRECT) && (m =? 0) && (mu =? 0) then None else Some (o, m, mu))
+                    (Some (pp_hsource pk)) (match e_proc e with Some (_, nm) => Some nm | None => None end)
+                    (pp_dscp pk) pid).
+  set (ns := new_state false (e_now e) a).
+  assert (Habs : (if needs_record (mk_dec o m mu)
+                  then mk_fentry false false (e_now e) (Some (mk_dec o m mu)) (pp_dscp pk) (pp_hsource pk) pname pid
+                  else fresh_entry false (e_now e) (pp_dscp pk) pid) = abs_cs ns).
+  { unfold ns, a, new_state, needs_record, pname. cbn [a_rt a_mac a_pname a_dscp a_pid d_out d_mark d_must].
+    change OUT_DIRECT with OUTBOUND_DIRECT.
+    destruct ((o =? OUTBOUND_DIRECT) && (m =? 0) && (mu =? 0)); cbn [negb]; [reflexivity|].
+    destruct (e_proc e) as [[x y]|]; reflexivity. }
+  rewrite Habs, <- del_abs, <- set_abs.
+  apply (wan_tail_refines e pk (tcp_pkt pk)); cbn [ks_conn]; try reflexivity.
+  - rewrite Hl4; exact Hkp.
+  - unfold p_listener; cbn [p_class tcp_pkt]; rewrite Hpn; reflexivity.
+  - rewrite Ht; reflexivity.
+  - apply inv_conn_set; [apply inv_conn_del; exact Hi | exact Hsl].
+  - intros Hn. rewrite tab_get_set_eq.
+    unfold needs_control_plane in Hn. apply negb_true_iff in Hn.
+    assert (Hns : ns = mk_cs false TCP_STATE_ACTIVE (e_now e) m o mu (pp_dscp pk) 1 (pp_hsource pk) pname pid).
+    { unfold ns, a, new_state, pname. cbn [a_rt a_mac a_pname a_dscp a_pid]. rewrite Hn. cbn [andb].
+      destruct (e_proc e) as [[x y]|]; reflexivity. }
+    rewrite Hns. apply retrieve_conn. reflexivity.
+Qed.
